@@ -38,6 +38,10 @@ type Field struct {
 	// Context is for user provided data and is only used by the Resolvers,
 	// not this package.
 	Context interface{}
+
+	// sorted is Args in the order of the field definition's arguments with
+	// nil for arguments not provided. It is used to call reflected methods.
+	sorted []*ArgValue
 }
 
 // String representation of the instance.
@@ -121,14 +125,10 @@ func (f *Field) sortArgs() (errors []error) {
 				for _, a := range fd.args.list {
 					args = append(args, f.getArg(a.N))
 				}
-				// Keep arguments that are not declared at the end so they are
-				// reported every time the field is resolved, not just the first.
-				for _, av := range f.Args {
-					if fd.getArg(av.Arg) == nil {
-						args = append(args, av)
-					}
-				}
-				f.Args = args
+				// Args is left as parsed so the printed form of the field does
+				// not change and undeclared arguments are reported every time
+				// the field is resolved.
+				f.sorted = args
 				errors = f.undeclaredArgs()
 			}
 		}
